@@ -518,6 +518,67 @@ def linCombI (isz : K → Bool) (a b : K) (x : Nat → Nat) (y : Nat) (s : St K)
 
 end
 
+/-! ### Round 4: `BroadcastOperator`, `ReductionOperator`, `DiagonalOperator` with the block lists
+their constructors build and the identity wrapping of their `_call`
+
+Executed by the `wrap` op of `Drivers/C03.lean` (the driver receives the operand list only; the
+block list and the wrapping come from here), compared by the `wrap` lines of the `pso` stream. -/
+
+section
+variable {K : Type} [Add K] [Mul K] [OfNat K 0]
+
+/-- Blocks `(k, colOf k, op_0), (k+1, colOf (k+1), op_1), …` in this (COO) order:
+`BroadcastOperator.__init__` builds `ProductSpaceOperator([[op_0], [op_1], …])` (`colOf = 0`),
+`DiagonalOperator.__init__` the blocks `(i, i, op_i)` (`colOf = id`). -/
+def rowsFrom (colOf : Nat → Nat) (k : Nat) : List (Op K) → List (Entry K)
+  | [] => []
+  | op :: r => ⟨k, colOf k, op⟩ :: rowsFrom colOf (k + 1) r
+
+/-- `ReductionOperator.__init__`: `ProductSpaceOperator([[op_0, op_1, …]])`, blocks `(0, j, op_j)`. -/
+def colsFrom (k : Nat) : List (Op K) → List (Entry K)
+  | [] => []
+  | op :: r => ⟨0, k, op⟩ :: colsFrom (k + 1) r
+
+/-- `BroadcastOperator._call(x)`: `wrapped_x = prod_op.domain.element([x], cast=False)` — a
+1-tuple whose only component IS the object `x` (no copy) — `return prod_op(wrapped_x)`. -/
+def broadcastO (jk : Nat → Vec K) (ops : List (Op K)) (xb : Nat) (s : St K) : PRes K :=
+  psoO jk ops.length (rowsFrom (fun _ => 0) 0 ops) (fun _ => xb) s
+
+/-- `BroadcastOperator._call(x, out)`: `return prod_op(wrapped_x, out=out)`. -/
+def broadcastI (jk : Nat → Vec K) (ops : List (Op K)) (xb : Nat) (y : Nat → Nat) (s : St K) :
+    PRes K :=
+  psoI jk ops.length (rowsFrom (fun _ => 0) 0 ops) (fun _ => xb) y s
+
+/-- `ReductionOperator._call(x)`: `return self.prod_op(x)[0]` — component object 0 of the new
+result tuple. -/
+def reductionO (jk : Nat → Vec K) (ops : List (Op K)) (x : Nat → Nat) (s : St K) : Res K :=
+  match psoO jk 1 (colsFrom 0 ops) x s with
+  | .err e s1 => .err e s1
+  | .ok _ s1 => .ok s.next s1
+
+/-- `ReductionOperator._call(x, out)`: `wrapped_out = prod_op.range.element([out], cast=False)`
+(the 1-tuple whose component IS `out`); `pspace_result = prod_op(x, out=wrapped_out)`;
+`return pspace_result[0]` — the object `out` itself. -/
+def reductionI (jk : Nat → Vec K) (ops : List (Op K)) (x : Nat → Nat) (yb : Nat) (s : St K) :
+    Res K :=
+  match psoI jk 1 (colsFrom 0 ops) x (fun _ => yb) s with
+  | .err e s1 => .err e s1
+  | .ok _ s1 => .ok yb s1
+
+/-- `DiagonalOperator` has no `_call` of its own (it IS a `ProductSpaceOperator`). -/
+def diagonalO (jk : Nat → Vec K) (ops : List (Op K)) (x : Nat → Nat) (s : St K) : PRes K :=
+  psoO jk ops.length (rowsFrom id 0 ops) x s
+
+def diagonalI (jk : Nat → Vec K) (ops : List (Op K)) (x y : Nat → Nat) (s : St K) : PRes K :=
+  psoI jk ops.length (rowsFrom id 0 ops) x y s
+
+/-- Value of a reduction: `((0 + ⟦op_0⟧(x_k)) + ⟦op_1⟧(x_{k+1})) + …`, in this order. -/
+def redSum (xv : Nat → Vec K) : Nat → List (Op K) → Vec K → Vec K
+  | _, [], acc => acc
+  | k, op :: r, acc => redSum xv (k + 1) r (fun j => acc j + den op (xv k) j)
+
+end
+
 /-! ### Leaves built from the straight-line programs of `ProxProg` -/
 
 /-- Local view of the store for a program body: buffer 0 is `x`, buffer 1 is `out` (when
